@@ -32,8 +32,9 @@ def units(ctx):
     N3 = 4 if ctx.thorough else 3
     sc = lattice.scales_for(ctx.thorough, ctx.seed, 1)
     for s in sc:
-        for spec in fam2:
-            us.append(("seqs", spec, 2, N2, s, ctx.seed))
+        for k, spec in enumerate(fam2):
+            # thorough: the 9^5 ordered sequences for every third cone, 9^4 for the others (cost)
+            us.append(("seqs", spec, 2, N2 if (not ctx.thorough or k % 3 == 0) else 4, s, ctx.seed))
         for spec in fam3:
             us.append(("seqs", spec, 3, N3, s, ctx.seed))
     for spec in fam2 + fam3:
